@@ -53,6 +53,9 @@ def generate(rng, n, tier):
             c = G.gen_script(rng, nops=(2, 6), p_mid=0.2, solvers=("DE2",))
             c.update(kind="map", maps=["reversed", "shuffled", "threads"], mapseed=rng.randrange(10 ** 6))
             yield c
+        elif r < 0.9:
+            yield dict(kind="seed", seed=rng.choice([0, 0, 1, 7, 2 ** 31, 123456789]), ndim=rng.choice([1, 2]), npts=rng.choice([3, 4]),
+                       how=rng.choice(["buckshot", "multinormal", "de"]), cost=G.gen_cost(rng, 2))
         else:
             ndim = rng.choice([1, 2])
             yield dict(kind="ensemble", ens=rng.choice(["lattice", "buckshot"]), nested=rng.choice(["NM", "POW"]), ndim=ndim,
@@ -112,7 +115,30 @@ def _run(case):
         for m in case["maps"]:
             outs.append(dict(map=m, out=_run_with_map(case, make_map(m, case["mapseed"]))))
         return dict(base=base, outs=outs)
+    if k == "seed":
+        return dict(a=_run_seeded(case), b=_run_seeded(case))
     return _run_ensemble(case)
+
+
+def _run_seeded(case):
+    """same seed given to mystic.tools.random_seed twice: everything drawn from the global generators must repeat"""
+    from mystic.tools import random_seed
+    from mystic.solvers import BuckshotSolver, NelderMeadSimplexSolver, DifferentialEvolutionSolver
+    from mystic.termination import VTR
+    random_seed(case["seed"])
+    nd = case["ndim"]
+    cost = _Cost(dict(case["cost"], a=(case["cost"].get("a") or [0.0, 0.0])[:nd]) if "a" in case["cost"] else case["cost"])
+    if case["how"] == "buckshot":
+        s = BuckshotSolver(nd, case["npts"]); s.SetNestedSolver(NelderMeadSimplexSolver)
+        s.SetStrictRanges([-2.0] * nd, [2.0] * nd); s.SetEvaluationLimits(generations=4); s.SetTermination(VTR(-1.0))
+        s.SetObjective(cost); s.Solve()
+        return dict(bestX=[float(v) for v in s.bestSolution], bestE=float(s.bestEnergy), total=int(s._total_evals))
+    if case["how"] == "multinormal":
+        s = NelderMeadSimplexSolver(nd); s.SetMultinormalInitialPoints([0.5] * nd, 1.0)
+        return dict(pop=[[float(v) for v in p] for p in s.population])
+    s = DifferentialEvolutionSolver(nd, 5); s.SetRandomInitialPoints([-2.0] * nd, [2.0] * nd); s.SetEvaluationLimits(generations=3)
+    s.SetTermination(VTR(-1.0)); s.SetObjective(cost); s.Solve()
+    return dict(bestX=[float(v) for v in s.bestSolution], bestE=float(s.bestEnergy), pop=[[float(v) for v in p] for p in s.population])
 
 
 def _run_with_map(case, mp):
@@ -121,7 +147,8 @@ def _run_with_map(case, mp):
     tag = L.new_tag(); rec = L.REG[tag] = L.Rec()
     try:
         s = L.build_solver(kind, case["ndim"], case.get("npop", 4)); s._verif_tag = tag
-        s.strategy = case.get("strategy", "Best1Bin"); s.probability = case.get("cross", 0.9); s.scale = case.get("scale", 0.8)
+        if not case.get("de_kw"):
+            s.strategy = case.get("strategy", "Best1Bin"); s.probability = case.get("cross", 0.9); s.scale = case.get("scale", 0.8)
         s.SetMapper(mp)
         trace, opres = [], []
         with L.Instrumented():
@@ -201,6 +228,9 @@ def oracle(case, out):
                     diff = [q for q in va if va[q] != vb[q]]
                     f.append(SC.fail("schedule_irrelevant", "DifferentialEvolutionSolver2", "trajectory-depends-on-map-order:" + r["map"], dict(op=j, fields=diff)))
                     break
+    elif k == "seed":
+        if out["a"] != out["b"]:
+            f.append(SC.fail("same_seed_same_run", "tools.random_seed", "same-seed-different-run:" + case["how"], dict(seed=case["seed"], a=out["a"], b=out["b"])))
     else:
         e = out["ens"]
         ref = e["None"]
@@ -253,6 +283,9 @@ def classify(case, out):
         n = out["runs"][0]["out"]["trace"][-1]["nstep"]
     elif case["kind"] == "map":
         n = out["base"]["trace"][-1]["nstep"]
+    elif case["kind"] == "seed":
+        tags += ["seed:%s" % case["seed"], "how:" + case["how"]]
+        n = 2
     else:
         tags += ["ens:" + case["ens"], "nested:" + case["nested"]]
         n = 2
